@@ -93,6 +93,66 @@ Definition sem_check_a64 (p : prog) (cs : list acode) (argss : list (list Z)) : 
         end
     end) argss None.
 
+(* a disagreement is reported by its first differing instruction (whole programs are far too long) *)
+Fixpoint first_diff (i : nat) (a b : list acode) : string :=
+  match a, b with
+  | [], [] => "none"
+  | x :: a', y :: b' =>
+      if String.eqb (show (s_acode x)) (show (s_acode y)) then first_diff (S i) a' b'
+      else "at " ++ n_to_string (N.of_nat i) ++ ": " ++ show (s_acode x) ++ " vs " ++ show (s_acode y)
+  | x :: _, [] => "at " ++ n_to_string (N.of_nat i) ++ ": " ++ show (s_acode x) ++ " vs end"
+  | [], y :: _ => "at " ++ n_to_string (N.of_nat i) ++ ": end vs " ++ show (s_acode y)
+  end.
+Definition codes_diff (m : res (list acode * nat * N)) (cs : list acode) (n : N) : verdict :=
+  match m with
+  | Err e => VDiff ("(PANIC " ++ e ++ ")") ("code of length " ++ n_to_string (N.of_nat (List.length cs)))
+  | Ok (mc, mn, _) =>
+      if negb (N.eqb (N.of_nat mn) n) then VDiff ("nargs " ++ n_to_string (N.of_nat mn)) ("nargs " ++ n_to_string n)
+      else match first_diff 0 mc cs with
+           | "none" => VOk ""
+           | d => VDiff ("first difference (model vs rust) " ++ d)
+                        ("lengths " ++ n_to_string (N.of_nat (List.length mc)) ++ " vs " ++ n_to_string (N.of_nat (List.length cs)))
+           end
+  end.
+
+(* dynamic coverage of the emitted code by the argument tuples (evidence only): the share of
+   instructions executed at least once *)
+Fixpoint cov_chunk (fuel : nat) (im : image) (pc : positive) (s : astate) (seen : PM.t unit) : option (positive * astate) * PM.t unit :=
+  match fuel with
+  | O => (Some (pc, s), seen)
+  | S f =>
+      match PM.find pc (code im) with
+      | None => (None, seen)
+      | Some c =>
+          let seen' := PM.add pc tt seen in
+          match step im c s with
+          | Next s' => cov_chunk f im (Pos.succ pc) s' seen'
+          | Jump s' i => cov_chunk f im i s' seen'
+          | _ => (None, seen')
+          end
+      end
+  end.
+Fixpoint cov_run (outer inner : nat) (im : image) (pc : positive) (s : astate) (seen : PM.t unit) : PM.t unit :=
+  match outer with
+  | O => seen
+  | S o => match cov_chunk inner im pc s seen with
+           | (Some (pc', s'), seen') => cov_run o inner im pc' s' seen'
+           | (None, seen') => seen'
+           end
+  end.
+Definition coverage_decile (cs : list acode) (argss : list (list Z)) : N :=
+  let im := mk_image cs in
+  match find_label (labels im) "asm_main" with
+  | None => 0%N
+  | Some i =>
+      let seen := fold_left (fun seen args => cov_run a64_outer a64_inner im i (init_state args) seen) argss (PM.empty unit) in
+      let total := List.length (filter (fun c => negb (Z.eqb (isize c) 0)) cs) in
+      let hit := PM.fold (fun k _ n => match PM.find k (code im) with
+                                       | Some c => if Z.eqb (isize c) 0 then n else S n
+                                       | None => n end) seen O in
+      N.of_nat (hit * 10 / Nat.max total 1)
+  end.
+
 Definition defined_runs (p : prog) (argss : list (list Z)) : nat :=
   List.length (filter (fun args => defined (run_linear lin_fuel p args)) argss).
 
@@ -106,22 +166,23 @@ Definition codegen_a64_case (i r : sexp) : verdict :=
           | L [A "PANIC"; Q msg] =>
               match m with
               | Err _ => VOk "panic-agree"
-              | Ok _ => VDiff (show (s_res_acodes m)) (show r)
+              | Ok (mc, _, _) => VDiff ("code of length " ++ n_to_string (N.of_nat (List.length mc))) (show r)
               end
           | L [cs; n] =>
               match g_acodes cs, getN n with
               | Some cs, Some n =>
-                  let r' := L [L (map s_acode cs); sN n] in
                   match sem_check_a64 p cs argss with
-                  | Some why => VViol why
+                  | Some why =>
+                      VViol (why ++ match codes_diff m cs n with VOk _ => " [model = rust]" | _ => " [model <> rust]" end)
                   | None =>
-                      match m with
-                      | Ok (mc, _, _) =>
-                          match cmp_sexp (s_res_acodes m) r' with
-                          | VOk _ => VOk (a64_tags p mc ++ " runs" ++ n_to_string (N.of_nat (defined_runs p argss)))
-                          | v => v
+                      match codes_diff m cs n with
+                      | VOk _ =>
+                          match m with
+                          | Ok (mc, _, _) => VOk (a64_tags p mc ++ " runs" ++ n_to_string (N.of_nat (defined_runs p argss))
+                                                  ++ " cov" ++ n_to_string (coverage_decile cs argss))
+                          | Err _ => VBad "impossible"
                           end
-                      | Err _ => VDiff (show (s_res_acodes m)) (show r')
+                      | v => v
                       end
                   end
               | _, _ => VBad "rust output unreadable"
@@ -133,3 +194,55 @@ Definition codegen_a64_case (i r : sexp) : verdict :=
   | _ => VBad "input shape"
   end.
 Definition run_codegen_a64 : string -> string := run_cases codegen_a64_case.
+
+(* ---------- modelrun command "heap-a64": the heap invariant (Sem/HeapCheck.v, C09) at every statement
+   boundary of the MARKED model code (whose unmarked form `codegen-a64` compares with the Rust
+   output), plus the measurements C10 needs ---------- *)
+From SCC Require Import Sem.HeapCheck Sem.A64Heap.
+
+Definition heap_check_a64 (p : prog) (cs : list acode) (argss : list (list Z)) : option string + (N * Z) :=
+  fold_left (fun acc args =>
+    match acc with
+    | inl (Some _) => acc
+    | _ =>
+        let ref := run_linear lin_fuel p args in
+        match snd ref with
+        | OExit _ =>
+            let '(got, _, st) := run_a64_heap a64_outer a64_inner cs args in
+            match first_violation st with
+            | Some why => inl (Some ("class=a64-heap-invariant args=" ++ show (sL sZ args) ++ " after " ++ n_to_string (boundaries st)
+                                     ++ " statement boundaries: " ++ why))
+            | None =>
+                if obs_eqb ref got then
+                  match acc with
+                  | inr (b, pk) => inr ((b + boundaries st)%N, Z.max pk (peak_in_use st))
+                  | _ => inr (boundaries st, peak_in_use st)
+                  end
+                else inl (Some ("class=a64-semantic-mismatch (marked code) args=" ++ show (sL sZ args) ++ " expected=" ++ show (s_obs ref)
+                                ++ " got=" ++ show (s_obs got)))
+            end
+        | _ => acc
+        end
+    end) argss (inl None).
+
+Definition heap_a64_case (i r : sexp) : verdict :=
+  match i with
+  | L [Q _; p; lc; argss] =>
+      match g_prog p, getN lc, getL (getL getZ) argss with
+      | Some p, Some lc, Some argss =>
+          match a64_compile_marked p lc with
+          | Err _ => VSkip "model panics (capacity)"
+          | Ok (cs, _, _) =>
+              match heap_check_a64 p cs argss with
+              | inl (Some why) => VViol why
+              | inl None => VOk "no-defined-run"
+              | inr (b, pk) =>
+                  VOk ("nt boundaries" ++ n_to_string (N.log2 (b + 1)) ++ " peak" ++ n_to_string (Z.to_N (Z.log2 (pk + 1)))
+                       ++ (if Nat.ltb lr_boundary (max_live (walk_prog p)) then " spills" else " nospill"))
+              end
+          end
+      | _, _, _ => VBad "input unreadable"
+      end
+  | _ => VBad "input shape"
+  end.
+Definition run_heap_a64 : string -> string := run_cases heap_a64_case.
